@@ -21,7 +21,7 @@
     "all centre hydrogens explicit" branch (default mode: _strip_explicit_h, hydrogen expansion, _explicit_h). *)
 From Coq Require Import List NArith ZArith Bool Permutation.
 From SK Require Import lib.Mono model.C06_Model lib.C06_Spec model.C11_Model.
-From SK Require Import lib.Tok lib.LGraph model.C03_Model model.C04_Model model.C04_Reactor proof.C04_Any proof.C04_Check proof.C04_Proof proof.C04_DefaultProof proof.C04_Engine proof.C04_Prune proof.C04_Examples proof.C04_Object proof.C04_Chain proof.C04_Template proof.C04_Fold proof.C04_Default proof.C04_Explicit proof.C04_DefaultEnd proof.C04_ObjectExamples.
+From SK Require Import lib.Tok lib.LGraph model.C03_Model model.C04_Model model.C04_Reactor proof.C04_Any proof.C04_Check proof.C04_Proof proof.C04_DefaultProof proof.C04_Engine proof.C04_Prune proof.C04_Examples proof.C04_Object proof.C04_Chain proof.C04_Glue proof.C04_Template proof.C04_Fold proof.C04_Default proof.C04_Explicit proof.C04_DefaultEnd proof.C04_DefaultChain proof.C04_CompBt proof.C04_ObjectExamples.
 Import ListNotations.
 Local Open Scope Z_scope.
 
@@ -350,3 +350,96 @@ Theorem C04_comp_bt_refuted : exists (G H : hostg) (rule : triple),
   regenerates (SMember 0%N) = true /\ regenerates (SStr [99; 111; 109; 112]%N) = false /\ regenerates (SStr [98; 116]%N) = false.
 Proof. exact comp_bt_refuted. Qed.
 Print Assumptions C04_comp_bt_refuted.
+
+(** * the default mode through the engine, the pruning and the reactor object *)
+
+(** default-mode counterpart of C04_identity_match: under the hypotheses of C04_identity_glue_default the reactor's rule
+    exists, its pattern has no explicit hydrogen left (the matcher uses it as it is: no re-match path), and the identity
+    passes the matcher's node / edge predicates on the substrate.  Proof: the stripped pattern [l] IS the reactant side of the
+    prepared rule -- same atoms, elements, charges, hydrogen counts and (positive) bond orders ([left_of], from C03's exact
+    description of _strip_explicit_h, read-only) -- so a match of the rule is a match of the pattern. *)
+Theorem C04_identity_match_default : forall (core invert : bool) (G H : hostg),
+  pair_wfb G H = true -> mode_E G H = true ->
+  default_okb (if invert then H else G) (if invert then G else H) (template core invert G H) = true ->
+  (core = true -> centre_carries (its_construct G H) = true) ->
+  exists (rc : its) (l r : molg), rule_of core invert G H = Some (rc, l, r) /\ has_XH l = false /\ left_of rc l /\
+    match_okb (substrate invert G H) (pattern_of l) (id_map (node_ids (pattern_of l))) = true.
+Proof. exact default_identity_match. Qed.
+Print Assumptions C04_identity_match_default.
+
+(** PARTIAL -- the default (explicit-hydrogen) mode, the library's own default, through the whole reactor object for the
+    exhaustive strategy: under the hypotheses of C04_identity_glue_default, C06's VF2 contract for the one enumeration, a
+    threshold that is not exceeded and non-negative pattern counts (boolean, monitored), IF _explicit_h raises on none of
+    the glued ITS graphs ([crashed] = false: the premise that is validated per case, see C04_identity_default_end), then a
+    fresh reactor -- engine call, pruning by the rule's automorphisms on the canonical codes, _glue_graph on every kept
+    mapping, _explicit_h over the list -- has in its_list an ITS that decomposes to the reaction in implicit-hydrogen
+    normal form.  With C04_in_results_engine_partial (implicit mode) this covers both branches of the precondition for
+    strategy ALL up to RDKit.  Missing for the full clause: totality of _explicit_h from the precondition; H2 / H+ (re-match
+    path, outside default_okb); comp / bt (refuted in general: C04_comp_bt_refuted); RDKit + Standardize.fit. *)
+Theorem C04_in_results_engine_default_partial : forall (enum : list N -> list N -> list C06_Model.mapping)
+    (rematch : nat -> hostg -> molg -> list C03_Model.mapping) (core invert : bool) (G H : hostg) (thr : option N),
+  pair_wfb G H = true -> mode_E G H = true ->
+  default_okb (if invert then H else G) (if invert then G else H) (template core invert G H) = true ->
+  (core = true -> centre_carries (its_construct G H) = true) ->
+  forall (rc : its) (l r : molg),
+  rule_of core invert G H = Some (rc, l, r) ->
+  forallb (fun p : N * mnode => 0 <=? m_hc (snd p)) (gnodes l) = true ->
+  vf2_contract enum (tr_host (substrate invert G H)) (tr_pat l) (node_ids (tr_host (substrate invert G H))) (node_ids (tr_pat l)) ->
+  (lenN (enum (node_ids (tr_host (substrate invert G H))) (node_ids (tr_pat l))) <= dflt DEFAULT_THRESHOLD thr)%N ->
+  (forall ms, compute_mappings (api_engine enum) (own_opts invert true (SMember 0%N) thr false) (substrate invert G H) (rc, l, r) = Some ms ->
+              crashed rematch (own_opts invert true (SMember 0%N) thr false) (substrate invert G H) (rc, l, r) ms = false) ->
+  exists (gs : list its) (T' : its),
+    fst (read_its (api_engine enum) rematch (own_opts invert true (SMember 0%N) thr false) (substrate invert G H) (rc, l, r) fresh) = Some gs /\
+    In T' gs /\ regen_folded T' (if invert then H else G) (if invert then G else H) = true.
+Proof. exact default_chain. Qed.
+Print Assumptions C04_in_results_engine_default_partial.
+
+(** * strategies comp / bt, the positive side (with C04_comp_bt_refuted: the whole picture)
+
+    For ANY rule [rc] that describes a pair (A, B) ([describes]: proof/C04_Glue.v -- the own templates in implicit mode by
+    C04_identity_glue's proof, the prepared rule of the default mode by C04_identity_glue_default's) together with its pattern
+    [l] ([left_of rc l]: same atoms, the elements / charges / hydrogen counts of the reactant tuples, the bonds with positive
+    reactant order -- [own_left_of] in implicit mode, C04_identity_match_default in the default mode), under C06's contract
+    [oracle_ok] for every VF2 call the component-aware search can make (whole graphs and pattern component x substrate
+    component; met by the verified enumerator: C06_enumerator_oracle_ok), [hcc] / [pcc] = number of connected components of
+    substrate / pattern, strict_cc_count at its default (True), for every embed_threshold from some [T0] on:
+
+    comp: outside the strict_cc_count guard region (not 0 < pcc < hcc), if hcc < pcc (then comp is exhaustive) or the identity
+    SEPARATES the pattern components ([separating], lib/C06_Spec.v: two atoms in one substrate component only if they are in one
+    pattern component), the engine answers and among the mappings the pruning keeps there is one whose glued ITS decomposes
+    to (A, B);
+    bt: the same, and also inside the guard region (comp returns nothing there, bt falls back to the exhaustive strategy).
+    The remaining case -- identity not separating, hcc = pcc, comp's answer not empty -- is where both lose the reaction
+    (C04_comp_bt_refuted).  PARTIAL with respect to the property text for the same reasons as C04_in_results_engine_partial
+    (RDKit; in the default mode _explicit_h's totality). *)
+Theorem C04_comp_regenerates_partial : forall (enum : list N -> list N -> list C06_Model.mapping)
+    (A B : hostg) (rc : its) (l r : molg),
+  pair_wf A B -> describes A B rc -> left_of rc l -> has_XH l = false ->
+  forallb (fun p : N * mnode => 0 <=? m_hc (snd p)) (gnodes l) = true ->
+  gwf (tr_host A) -> gwf (tr_pat l) -> oracle_ok enum (tr_host A) (tr_pat l) ->
+  (0 <? length (comps (tr_pat l)))%nat && (length (comps (tr_pat l)) <? length (comps (tr_host A)))%nat = false ->
+  ((length (comps (tr_host A)) <? length (comps (tr_pat l)))%nat = true \/
+   separating (tr_host A) (tr_pat l) (id_map (node_ids l))) ->
+  exists T0 : N, forall (T : N) (o : ropts), (T0 <= T)%N ->
+    o_strategy o = SMember 1%N -> o_thr o = Some T -> o_pref o = false ->
+    exists (ms : list C03_Model.mapping) (y : C03_Model.mapping) (T' : its),
+      compute_mappings (api_engine enum) o A (rc, l, r) = Some ms /\ In y ms /\
+      glue A rc y = Some T' /\ regen_exact T' A B = true.
+Proof. exact comp_regenerates. Qed.
+Print Assumptions C04_comp_regenerates_partial.
+
+Theorem C04_bt_regenerates_partial : forall (enum : list N -> list N -> list C06_Model.mapping)
+    (A B : hostg) (rc : its) (l r : molg),
+  pair_wf A B -> describes A B rc -> left_of rc l -> has_XH l = false ->
+  forallb (fun p : N * mnode => 0 <=? m_hc (snd p)) (gnodes l) = true ->
+  gwf (tr_host A) -> gwf (tr_pat l) -> oracle_ok enum (tr_host A) (tr_pat l) ->
+  ((0 <? length (comps (tr_pat l)))%nat && (length (comps (tr_pat l)) <? length (comps (tr_host A)))%nat = true \/
+   (length (comps (tr_host A)) <? length (comps (tr_pat l)))%nat = true \/
+   separating (tr_host A) (tr_pat l) (id_map (node_ids l))) ->
+  exists T0 : N, forall (T : N) (o : ropts), (T0 <= T)%N ->
+    o_strategy o = SMember 2%N -> o_thr o = Some T -> o_pref o = false ->
+    exists (ms : list C03_Model.mapping) (y : C03_Model.mapping) (T' : its),
+      compute_mappings (api_engine enum) o A (rc, l, r) = Some ms /\ In y ms /\
+      glue A rc y = Some T' /\ regen_exact T' A B = true.
+Proof. exact bt_regenerates. Qed.
+Print Assumptions C04_bt_regenerates_partial.
